@@ -10,6 +10,7 @@ with tempfile.TemporaryDirectory() as td:
            "--continue-on-collection-errors", "--junitxml=" + xmlp]
     r = subprocess.run(cmd, cwd=repo, capture_output=True, text=True)
     print(r.stdout.strip().splitlines()[-1])
+    import shutil; shutil.rmtree(os.path.join(repo, ".hypothesis"), ignore_errors=True)
     passed = set()
     for tc in ET.parse(xmlp).getroot().iter("testcase"):
         if not any(ch.tag in ("failure", "error", "skipped") for ch in tc):
